@@ -81,6 +81,11 @@ def gen_pivot(rng):
     xn = ['a', 'b'][:nx]
     t = [(k, [rng.choice(rng.sample(KEYS, 3) if rng.random() < 0.8 else KEYS) for _ in range(n)]) for k in xn]
     ypool = rng.choice([['p', 'q', 'r'], [1, 2, 3], ['p', 1, 'q', 2], ['p']])
+    if rng.random() < 0.25:
+        # y labels that are substrings of an x column's name (x passed as a plain string when there is one x column)
+        xn = [['name'], ['name', 'date']][nx - 1]
+        t = [(k2, v) for k2, (_, v) in zip(xn, t)]
+        ypool = rng.choice([['a', 'e', 'me', 'q'], ['na', 't', 'am'], ['n', 'name2', 'd']])
     t.append(('y', [rng.choice(ypool) for _ in range(n)]))
     t.append(('z', [rng.choice([1, 2, 3, 4, 0.5, 'u', 'w']) if rng.random() < 0.9 else None for _ in range(n)]))
     if rng.random() < 0.3:     # unique (x, y): the invertible case
